@@ -157,12 +157,21 @@ func genWindows(g *Rng, tier string) *Plan {
 			st.Classes = append(st.Classes, fmt.Sprintf("as%d-nb:%s", j, c))
 			m, c = drawMargin(g, mcs)
 			a.NotOnOrAfter = i64(x + m - mcs)
+			if c == "far-out" && g.Bool(0.5) {
+				// the earliest instant the lexical space can express: as far outside the window as it gets
+				a.NOAText = Pick(g, "0001-01-01T00:00:00Z", "0001-01-01T00:00:00.000Z", "0001-01-01T00:00:00", "0001-01-01T05:30:00+05:30")
+				a.NotOnOrAfter = i64(-3_000_000_000_000) // what the oracle uses: ~95 years before issuance (any value far outside serves)
+			}
 			st.Classes = append(st.Classes, fmt.Sprintf("as%d-noa:%s", j, c))
 			nc := 1 + g.PickW(5, 3, 1)
 			for q := 0; q < nc; q++ {
 				m, c = drawMargin(g, mcs)
-				a.Confs = append(a.Confs, ConfSpec{NotOnOrAfter: i64(x + m - mcs), Recipient: spBase + "/saml/acs", InResponseTo: "id-req",
-					Method: Pick(g, "", "", "", "urn:oasis:names:tc:SAML:2.0:cm:holder-of-key", "urn:oasis:names:tc:SAML:2.0:cm:sender-vouches")})
+				cf := ConfSpec{NotOnOrAfter: i64(x + m - mcs), Recipient: spBase + "/saml/acs", InResponseTo: "id-req",
+					Method: Pick(g, "", "", "", "urn:oasis:names:tc:SAML:2.0:cm:holder-of-key", "urn:oasis:names:tc:SAML:2.0:cm:sender-vouches")}
+				if c == "far-out" && g.Bool(0.4) {
+					cf.NOAText, cf.NotOnOrAfter = Pick(g, "0001-01-01T00:00:00Z", "0001-01-01T00:00:00.0004Z"), i64(-3_000_000_000_000)
+				}
+				a.Confs = append(a.Confs, cf)
 				st.Classes = append(st.Classes, fmt.Sprintf("as%d-conf%d:%s", j, q, c))
 			}
 			if g.Bool(0.2) {
